@@ -138,6 +138,14 @@ def r2(ctx, fs):
             GCI = ('mcall', 'ratio::smart_type::get_current_incs', st)
             CB = 'std::vector<std::vector<std::pair<smt::lit, double>>>::cbegin'
             ok = bool(calls) and calls[0][2] == 'incs' and not cond and (('mcall', CB, GCI) in calls[0] or any(v == GCI and ('mcall', CB, k) in calls[0] for k, v in srcs.items()))
+            if not ok and not cond:
+                # ... or element by element: an unconditional inner loop over get_current_incs() of that smart type that appends each element
+                for m in walk(n['slots']['body']):
+                    if m.get('k') == 'CXXForRangeStmt' and m is not n and canon(m['slots']['range'], env) == GCI:
+                        ev = m['slots']['var'].get('name')
+                        ps = [canon(x, env, subst=False) for x in walk(m['slots']['body']) if x.get('k') == 'CXXMemberCallExpr' and (x.get('callee_name') or '').endswith(('::push_back', '::emplace_back'))]
+                        if len(ps) == 1 and ps[0][2] == 'incs' and ps[0][-1] == ev:
+                            ok = True
     ctx.instance(rid, [f.id, 'all-smart-types'], {'every_smart_type_asked': ok})
     if not ok:
         ctx.finding(rid, f.id, 'all-smart-types', 'solver::get_incs must append get_current_incs() of every smart type, unconditionally', loc=f.loc)
